@@ -1,7 +1,8 @@
 ----------------------------- MODULE MC_Persist -----------------------------
 EXTENDS Persist
 MCWaits == { [min |-> 0, max |-> 0], [min |-> 1, max |-> 1], [min |-> 5, max |-> 30], [min |-> 0, max |-> 1], [min |-> 2, max |-> 1000] }
-MCWaitsQ == { [min |-> 5, max |-> 30], [min |-> 0, max |-> 1], [min |-> 2, max |-> 1000], [min |-> 3, max |-> 3] }
+\* (min_wait = max_wait = 0 and a draw of exactly 0: a back-off of zero seconds must still consult the exit event)
+MCWaitsQ == { [min |-> 5, max |-> 30], [min |-> 0, max |-> 1], [min |-> 2, max |-> 1000], [min |-> 0, max |-> 0] }
 MCDraws == { <<0, 1>>, <<1, 2>>, <<1023, 1024>> }
-MCDrawsQ == { <<1, 2>>, <<1023, 1024>> }
+MCDrawsQ == { <<0, 1>>, <<1023, 1024>> }
 =============================================================================
